@@ -145,7 +145,19 @@ def h_grid(ctx):
 def h_grid_coordinates(ctx):
     "explicit coordinates (1-D vectors or 2-D meshgrids)"
     cfg = ctx.cfg
-    g, _ = _fitted(ctx, ident=5)
+    ncomp = cfg.get("ncomp", 1)
+    g, _ = _fitted(ctx, ident=5, ncomp=ncomp)
+    projection, _, fwd = _proj(ctx, cfg)
+    gk = {}
+    if projection is not None:
+        gk["projection"] = projection
+    dims = tuple(cfg.get("dims", ("northing", "easting")))
+    if cfg.get("dims"):
+        gk["dims"] = dims
+    names = ["scalars"] if ncomp == 1 else ["east_component", "north_component", "vertical_component"][:ncomp]
+    if cfg.get("names") == "str":
+        gk["data_names"] = "temp"  # a single name given as a string, not a list
+        names = ["temp"]
     sh = tuple(cfg["shape"])
     east = ctx.reals("ge", sh[1])
     north = ctx.reals("gn", sh[0])
@@ -162,21 +174,26 @@ def h_grid_coordinates(ctx):
     x = ctx.reals("gx", sh) if nx else None
     if nx:
         coords = coords + (x,)
-    ds = g.grid(coordinates=coords)
-    ctx.claim("sizes follow the given coordinates", And(ds.sizes["easting"] == sh[1], ds.sizes["northing"] == sh[0]))
-    vals = ds["scalars"].values
-    ctx.claim("values have shape (n_north, n_east)", vals.shape == sh)
-    if vals.shape != sh or ds.sizes["easting"] != sh[1] or ds.sizes["northing"] != sh[0]:
+    ds = g.grid(coordinates=coords, **gk)
+    ctx.claim("dimensions named as requested (default northing, easting); sizes follow the given coordinates", And(set(ds.sizes) == set(dims), ds.sizes.get(dims[1]) == sh[1], ds.sizes.get(dims[0]) == sh[0]))
+    ctx.claim("one variable per component with the given (a plain string counts as one name) or default names", list(ds.data_vars) == names)
+    if set(ds.sizes) != set(dims) or ds.sizes[dims[1]] != sh[1] or ds.sizes[dims[0]] != sh[0] or list(ds.data_vars) != names:
         return
-    for i in range(sh[0]):
-        for j in range(sh[1]):
-            ctx.claim("value[i, j] is the prediction at the given (easting[j], northing[i])", eq(vals[i, j], P(5, 1, 0, east[j], north[i])))
-            if nx:
-                ctx.claim("given extra coordinate kept at its cell", eq(ds.coords["extra_coord"].values[i, j], x[i, j]))
+    for c, name in enumerate(names):
+        vals = ds[name].values
+        ctx.claim("values have shape (n_north, n_east)", vals.shape == sh and tuple(ds[name].dims) == dims)
+        if vals.shape != sh:
+            return
+        for i in range(sh[0]):
+            for j in range(sh[1]):
+                pe, pn = fwd(east[j], north[i])
+                ctx.claim("value[i, j] is the prediction at the given (easting[j], northing[i]), projected if a projection is given", eq(vals[i, j], P(5, 1, c, pe, pn)))
+                if nx and c == 0:
+                    ctx.claim("given extra coordinate kept at its cell", eq(ds.coords["extra_coord"].values[i, j], x[i, j]))
     for j in range(sh[1]):
-        ctx.claim("easting coordinate vector as given", eq(ds.coords["easting"].values[j], east[j]))
+        ctx.claim("easting coordinate vector as given (not projected)", eq(ds.coords[dims[1]].values[j], east[j]))
     for i in range(sh[0]):
-        ctx.claim("northing coordinate vector as given", eq(ds.coords["northing"].values[i], north[i]))
+        ctx.claim("northing coordinate vector as given (not projected)", eq(ds.coords[dims[0]].values[i], north[i]))
     for bad in (dict(coordinates=coords, shape=sh), dict(coordinates=coords, spacing=1.0), dict(coordinates=coords, region=(0, 1, 0, 1))):
         try:
             g.grid(**bad)
@@ -201,12 +218,14 @@ def h_profile(ctx):
         kw["extra_coords"] = xv
     if cfg.get("dims"):
         kw["dims"] = tuple(cfg["dims"])
+    if cfg.get("names") == "str":
+        kw["data_names"] = "temp"  # one name as a plain string
     table = g.profile(p1, p2, size, **kw)
     if cfg.get("dims"):
         later = g.profile((0.0, 0.0), (1.0, 1.0), 2)
         ctx.claim("profile column names follow the arguments of each call", list(later.columns)[:2] == ["northing", "easting"])
     dims = tuple(cfg.get("dims") or ("northing", "easting"))
-    names = [("scalars",), ("east_component", "north_component")][ncomp - 1]
+    names = ("temp",) if cfg.get("names") == "str" else [("scalars",), ("east_component", "north_component")][ncomp - 1]
     cols = [dims[0], dims[1], "distance"] + (["extra_coord"] if cfg.get("extra") else []) + list(names)
     ctx.claim("columns: northing, easting, distance, extra coordinates, data", list(table.columns) == cols)
     ctx.claim("size rows", len(table) == size)
@@ -246,6 +265,9 @@ def h_scatter(ctx):
     kw = {}
     if projection is not None:
         kw["projection"] = projection
+    if kind == "uf" and cfg.get("names") == "str":
+        kw["dims"] = ("lat", "lon")
+        kw["data_names"] = "temp"
     if kind == "uf":
         g, data_region = _fitted(ctx, ident=4)
         if cfg.get("default_region"):
@@ -255,20 +277,41 @@ def h_scatter(ctx):
             region = (w, ee, s, no)
             table = g.scatter(region=region, size=size, random_state=seed, **kw)
         pts = vc.scatter_points(region, size, random_state=seed)
-        ctx.claim("columns: northing, easting, data", list(table.columns) == ["northing", "easting", "scalars"])
+        cols = ["lat", "lon", "temp"] if cfg.get("names") == "str" else ["northing", "easting", "scalars"]
+        ctx.claim("columns: northing, easting, data (custom dimension names and a string data name honoured)", list(table.columns) == cols)
         ctx.claim("size rows", len(table) == size)
+        if list(table.columns) != cols:
+            return
         for k in range(min(size, len(table))):
-            ctx.claim("row k sits at the k-th reproducible scatter point of the region", And(eq(table["easting"].values[k], pts[0][k]), eq(table["northing"].values[k], pts[1][k])))
+            ctx.claim("row k sits at the k-th reproducible scatter point of the region", And(eq(table[cols[1]].values[k], pts[0][k]), eq(table[cols[0]].values[k], pts[1][k])))
             pe, pn = fwd(pts[0][k], pts[1][k])
-            ctx.claim("row k holds the prediction at that (projected) point", eq(table["scalars"].values[k], P(4, 1, 0, pe, pn)))
+            ctx.claim("row k holds the prediction at that (projected) point", eq(table[cols[2]].values[k], P(4, 1, 0, pe, pn)))
     else:
         amp = ctx.real("amp")
         cb = vd.synthetic.CheckerBoard(amplitude=amp, region=(w, ee, s, no), w_east=ctx.real("we", 1, None), w_north=ctx.real("wn", 1, None))
-        table = cb.scatter(size=size, random_state=seed)
-        pts = vc.scatter_points((w, ee, s, no), size, random_state=seed)
-        ctx.claim("CheckerBoard.scatter columns", list(table.columns) == ["northing", "easting", "scalars"])
-        for k in range(min(size, len(table))):
-            ctx.claim("CheckerBoard.scatter uses its own region and the reproducible scatter points", And(eq(table["easting"].values[k], pts[0][k]), eq(table["northing"].values[k], pts[1][k])))
+        skw = dict(kw)
+        used = (w, ee, s, no)
+        if cfg.get("other_region"):
+            # a region passed to scatter wins over the instance's
+            used = (ctx.real("W2"), ctx.real("E2"), ctx.real("S2"), ctx.real("N2"))
+            ctx.assume(used[0] <= used[1])
+            ctx.assume(used[2] <= used[3])
+            skw["region"] = used
+        dims, dname = ("northing", "easting"), "scalars"
+        if cfg.get("names"):
+            dims, dname = ("lat", "lon"), "height"
+            skw["dims"] = dims
+            skw["data_names"] = dname  # a single name given as a string
+        table = cb.scatter(size=size, random_state=seed, **skw)
+        pts = vc.scatter_points(used, size, random_state=seed)
+        ctx.claim("CheckerBoard.scatter columns: northing and easting dimension names, then the data name", list(table.columns) == [dims[0], dims[1], dname])
+        ctx.claim("size rows", len(table) == size)
+        if list(table.columns) == [dims[0], dims[1], dname] and len(table) == size:
+            pe, pn = fwd(pts[0], pts[1])
+            ref = cb.predict((pe, pn))
+            for k in range(size):
+                ctx.claim("CheckerBoard.scatter uses the requested (else its own) region and the reproducible scatter points", And(eq(table[dims[1]].values[k], pts[0][k]), eq(table[dims[0]].values[k], pts[1][k])))
+                ctx.claim("CheckerBoard.scatter holds what predict returns at those (projected) points", eq(table[dname].values[k], ref[k]))
 
 
 def h_defaults(ctx):
@@ -312,11 +355,11 @@ def _cfg_grid(tier, seed):
 
 HARNESSES = [
     Harness("grid", h_grid, _cfg_grid, bounds="symbolic region (given or the fitted data's bounding box), shapes up to 3x3 incl. non-square, spacing with <= 2.5 intervals per axis, both adjust modes and registrations, 0-2 extra coordinates, 1-3 components, custom dims and names, affine projections (separable and non-separable: rotation, shear)"),
-    Harness("grid_explicit_coordinates", h_grid_coordinates, lambda tier, seed: [{"shape": sh, "twod": t, "extra": x} for sh in ([(2, 3)] if tier == "quick" else [(1, 3), (3, 1), (2, 3), (3, 2)]) for t in (False, True) for x in ((0, 1) if t else (0,))] + [{"shape": (2, 3), "twod": True, "extra": 1, "mem": "F"}], bounds="symbolic non-uniform coordinate vectors as 1-D arrays or 2-D meshgrids (+ a symbolic 2-D extra coordinate), shapes up to 3x2"),
+    Harness("grid_explicit_coordinates", h_grid_coordinates, lambda tier, seed: [{"shape": sh, "twod": t, "extra": x} for sh in ([(2, 3)] if tier == "quick" else [(1, 3), (3, 1), (2, 3), (3, 2)]) for t in (False, True) for x in ((0, 1) if t else (0,))] + [{"shape": (2, 3), "twod": True, "extra": 1, "mem": "F"}, {"shape": (2, 3), "twod": False, "extra": 1, "proj": ("2", "-3"), "dims": ("lat", "lon"), "names": "str"}, {"shape": (3, 2), "twod": True, "extra": 0, "ncomp": 2, "proj": ("3/5", "-4/5", "4/5", "3/5")}, {"shape": (1, 2), "twod": False, "extra": 0, "ncomp": 3}], bounds="symbolic non-uniform coordinate vectors as 1-D arrays or 2-D meshgrids (+ a symbolic 2-D extra coordinate), shapes up to 3x2; 1-3 components with default names, a string data name, custom dims, affine projections"),
     Harness(
         "profile",
         h_profile,
-        lambda tier, seed: [{"size": 2}, {"size": 3, "proj": ("2", "-3"), "extra": 1, "ncomp": 2, "dims": ("lat", "lon")}, {"size": 3, "proj": ("3/5", "-4/5", "4/5", "3/5")}] + ([{"size": 1}, {"size": 4, "proj": ("-1/2", "4")}, {"size": 3}] if tier == "thorough" else []),
+        lambda tier, seed: [{"size": 2}, {"size": 3, "proj": ("2", "-3"), "extra": 1, "ncomp": 2, "dims": ("lat", "lon")}, {"size": 3, "proj": ("3/5", "-4/5", "4/5", "3/5")}, {"size": 2, "names": "str"}] + ([{"size": 1}, {"size": 4, "proj": ("-1/2", "4")}, {"size": 3}] if tier == "thorough" else []),
         bounds="symbolic end points, size 1-4, affine projection or none, extra coordinate, 1-2 components",
         engine={"oneshot": True},
         outside="OUT-TRANSC (values of the trigonometric functions)",
@@ -324,7 +367,7 @@ HARNESSES = [
     Harness(
         "scatter",
         h_scatter,
-        lambda tier, seed: [{"kind": "uf", "size": 2, "seed": 0}, {"kind": "uf", "size": 2, "seed": 3, "proj": ("2", "-3"), "default_region": True}, {"kind": "uf", "size": 2, "seed": 4, "proj": ("1", "1/2", "0", "2")}, {"kind": "checkerboard", "size": 2, "seed": 1}] + ([{"kind": "uf", "size": 4, "seed": seed}] if tier == "thorough" else []),
+        lambda tier, seed: [{"kind": "uf", "size": 2, "seed": 0}, {"kind": "uf", "size": 2, "seed": 3, "proj": ("2", "-3"), "default_region": True}, {"kind": "uf", "size": 2, "seed": 4, "proj": ("1", "1/2", "0", "2")}, {"kind": "uf", "size": 2, "seed": 6, "names": "str"}, {"kind": "checkerboard", "size": 2, "seed": 1}, {"kind": "checkerboard", "size": 2, "seed": 5, "proj": ("2", "-3"), "other_region": True, "names": True}] + ([{"kind": "uf", "size": 4, "seed": seed}] if tier == "thorough" else []),
         bounds="symbolic region, 2-4 points, RNG draws symbolic in [0,1)",
         extra_globals=_scatter_globals,
         stubs=["check_random_state -> StubRandomState (uniform contract)"],
